@@ -8,7 +8,8 @@ PROPS_MODULE = 'Props.C17'
 THEOREMS = ['psf2_roundtrip', 'psf2_roundtrip_general', 'psf2_partial_roundtrip', 'pad_font_complete', 'raw_roundtrip',
             'raw_partial_roundtrip', 'wf_font_256_is_raw', 'dcs_roundtrip',
             'dcs_magic_collision_refuted', 'known_1_witness', 'xbin_embed_roundtrip', 'adf_idf_embed_roundtrip',
-            'icydraw_embed_roundtrip', 'from_bytes_total', 'dcs_total', 'to_psf2_bytes_total', 'convert_to_u8_data_total',
+            'icydraw_embed_roundtrip', 'from_bytes_total', 'dcs_total', 'loaded_font_dims', 'dcs_font_dims',
+            'psf2_dims_before_fix_refuted', 'to_psf2_bytes_total', 'convert_to_u8_data_total',
             'writers_negative_height_refuted', 'create_8_rows',
             'tdf_roundtrip', 'tdf_single_roundtrip', 'tdf_writer_overflow_is_error', 'from_tdf_total']
 SWEEP_LEMMAS = []
@@ -29,12 +30,12 @@ ASSUMPTIONS = ['byte strings are shorter than 2^31 bytes (usize -> i32 casts of 
 RULE = ('bitmap fonts: width 8, height 1..32 (biased to 1, 8, 14, 16, 32), 256 or 512 glyphs, glyph rows random / constant / bit patterns, '
         'plus every built-in font page 0..=42 and every SAUCE font read from the data files named in the fonts!/sauce_fonts! macros; '
         'encoders are also run on fonts with glyphs missing at the end of the table or more glyphs than `length` (expected: padded / cut to `length` with empty glyphs, incl. a table reaching code 0xD800), on ill-formed fonts (wrong row count, length <= 0, width != 8, negative height); decoders on the encodings, '
-        'on truncations / header-field mutations / byte corruptions of valid PSF1, PSF2 and raw files and on short inputs; '
+        'on truncations / header-field mutations / byte corruptions of valid PSF1, PSF2 and raw files and on short inputs, on 20 files with a glyph size outside 1..8 x 1..32 or charsize != height (must be refused) and 7 at the boundary (must load); every loaded font is checked for its size and rows per glyph; '
         'TheDraw fonts: all three types, 0..94 defined glyphs of 1..30 x 1..12, names of 0..12 bytes (ASCII and multi-byte UTF-8), spaces 0..40, bundles of 1..34 fonts, '
         'plus ill-formed ones (name too long, NUL in name, spaces out of range, > 65535 bytes of glyph data) and truncations / corruptions of the files; '
         'a case is non-trivial when the decoded font has at least one glyph / the outcome is not an immediate length error; distinct = distinct inputs')
 
-ERR_CODE = {'UnsupportedVersion': 3, 'LengthMismatch': 4, 'UnknownFontFormat': 5,
+ERR_CODE = {'UnsupportedVersion': 3, 'LengthMismatch': 4, 'UnknownFontFormat': 5, 'UnsupportedSize': 6,
             'FileTooShort': 11, 'IdMismatch': 12, 'NameTooLong': 13, 'UnsupportedTtfType': 14, 'DataOverflow': 15,
             'GlyphOutsideFontDataSize': 16, 'LetterSpaceTooMuch': 17, 'IdLengthMismatch': 18, 'FontIndicatorMismatch': 19}
 IMPORTS = 'From IE Require Import Lib.C17Lib Model.Font Model.Tdf Run.RunC17.\nLocal Open Scope N_scope.'
@@ -144,6 +145,9 @@ def gen_partial_font(rng):
 # disagreed; kept as regression cases of both stages
 PARTIAL_REGRESSION = [Font(0, 1, 5, [b'\x81', b'\x1d', b'\x60']), Font(6, 1, 5, [b'\x48', b'\x16', b'\x82']), Font(8, 2, 1, []),
                       Font(8, 1, 3, [b'\x01', b'\x02', b'\x03', b'\x04'])]
+# fix fB: fonts the PSF2 writer still writes but the loader refuses now (width / height outside 1..=8 x 1..=32)
+DIM_REGRESSION = [Font(0, 1, 5, [b'\x81', b'\x1d', b'\x60']), Font(9, 1, 2, [b'\x01', b'\x02']), Font(8, 33, 1, [bytes(33)]), Font(8, 0, 0, []),
+                  Font(1 << 30, 16, 0, []), Font(8, 1 << 30, 0, []), Font(-1, -1, 0, []), Font(8, 300, 1, [bytes(300)])]
 # stage C only: rows shorter than the height; the witness of Props.C17.writers_negative_height_refuted (the one panic the
 # writers have left: `vec![0; height as usize]` for a missing glyph of a font with a negative height)
 ODD_REGRESSION = [Font(8, 300, 5, [bytes([40 + i] * 5) for i in range(3)]), Font(8, -1, 1, [])]
@@ -181,11 +185,11 @@ def gen_malformed_font_files(rng, n):
                 want = hdr[4] * hdr[5] + hdr[2]
                 if 0 <= want <= 4096: b = (b + bytes(4096))[:want] if want >= 32 else b
         elif k < 0.65:      # PSF1
-            mode = rng.choice([0, 1, 2, 3, 255]); cs = rng.choice([0, 0, 1, 2, 3, h, 255])
+            mode = rng.choice([0, 1, 2, 3, 255]); cs = rng.choice([0, 0, 1, 2, 3, h, 255, 32, 33])
             b = bytes([0x36, 0x04, mode, cs]) + body
             if rng.random() < 0.5: b = b[:rng.randrange(len(b) + 1)]
         elif k < 0.85:      # raw
-            b = bytes(rng.randrange(256) for _ in range(rng.choice([0, 1, 2, 3, 4, 5, 255, 256, 257, 512, 768, 1024, 1000])))
+            b = bytes(rng.randrange(256) for _ in range(rng.choice([0, 1, 2, 3, 4, 5, 255, 256, 257, 512, 768, 1024, 1000, 1000, 31 * 256, 32 * 256, 33 * 256, 34 * 256])))
             if rng.random() < 0.3 and len(b) >= 4: b = rng.choice([b'\x36\x04', b'\x72\xb5\x4a\x86', b'\x72\xb5', b'\x36']) + b[4:]
         else:               # short
             ln = rng.randrange(0, 40)
@@ -201,6 +205,22 @@ REGRESSION_FILES = [b'', b'\x00', b'\x36\x04', b'\x36\x04\x00', b'\x36\x04\x00\x
                     b'\x72\xb5\x4a\x86' + le32(0) + le32(64) + le32(0) + le32(0xFFFFFFFF) + le32(32) + le32(3) + le32(8),
                     b'\x72\xb5\x4a\x86' + le32(0) + le32(32) + le32(0) + le32(0x7FFFFFFF) + le32(0) + le32(0) + le32(8),
                     b'\x72\xb5\x4a\x86' + le32(1) + le32(32) + le32(0) + le32(0) + le32(0) + le32(0) + le32(8)]
+# fix fB (finding C02-sixel-font0): glyph sizes the loaders refuse since - a bare PSF2 header (length 0, charsize 0) with width /
+# height 0, 2^30, 2^32-1, 9, 33; a PSF1 header with charsize 0 / 33; raw data of 33 rows; a good size with charsize != height
+def psf2_header(h, w, length=0, charsize=0):
+    return b'\x72\xb5\x4a\x86' + le32(0) + le32(32) + le32(0) + le32(length) + le32(charsize) + le32(h) + le32(w)
+DEGENERATE_FILES = [psf2_header(16, 0), psf2_header(0, 8), psf2_header(16, 1 << 30), psf2_header(1 << 30, 8), psf2_header(0xFFFFFFFF, 0xFFFFFFFF),
+                    psf2_header(0, 0), psf2_header(16, 9), psf2_header(33, 8), psf2_header(0x80000000, 0x80000000),
+                    psf2_header(33, 8, 1, 33) + bytes(33), psf2_header(16, 9, 1, 32) + bytes(32), psf2_header(16, 16, 1, 32) + bytes(32),
+                    psf2_header(16, 8, 1, 32) + bytes(32), psf2_header(16, 8, 2, 8) + bytes(16), psf2_header(16, 8),
+                    b'\x36\x04\x00\x00', b'\x36\x04\x01\x00' + bytes(7), b'\x36\x04\x00\x21' + bytes(33 * 256), bytes(33 * 256), bytes(255 * 256)]
+# ... and the sizes at the boundary that still load (1x1, 8x32, 1x32; PSF1 charsize 32; raw 32 rows)
+BOUNDARY_FILES = [psf2_header(1, 1, 2, 1) + b'\x80\x00', psf2_header(32, 8, 1, 32) + bytes(range(32)), psf2_header(32, 1, 1, 32) + bytes(32),
+                  b'\x36\x04\x00\x20' + bytes(32 * 256), b'\x36\x04\x00\x01\x05', bytes([1]) * (32 * 256), bytes([1]) * 256]
+MAX_FONT_WIDTH, MAX_FONT_HEIGHT = 8, 32      # the plug-in's own copy of the bound (the Coq side reads the constants from the source)
+def dims_ok(w, h):
+    return 1 <= w <= MAX_FONT_WIDTH and 1 <= h <= MAX_FONT_HEIGHT
+
 # more than 0xD800 glyphs (abort on the pinned tree)
 BIG_FILES = [b'\x36\x04\x00\x01' + bytes(i & 255 for i in range(0xD800 + 5)),
              b'\x72\xb5\x4a\x86' + le32(0) + le32(32) + le32(0) + le32(0xD801) + le32(1) + le32(1) + le32(8) + bytes(0xD801),
@@ -526,7 +546,7 @@ def correspondence(ctx):
             # vec![0; negative as usize]: capacity overflow panic, the process survives, but keep it rare
             if rng.random() < 0.7: f.h = 2
         add('c17.%s %s' % (kind, f.spec()), 'run_%s %s' % (kind, f.coq()))
-    for f in PARTIAL_REGRESSION + ODD_REGRESSION + [gen_partial_font(rng) for _ in range(budget(ctx, 20, 60, 150))]:
+    for f in PARTIAL_REGRESSION + DIM_REGRESSION + ODD_REGRESSION + [gen_partial_font(rng) for _ in range(budget(ctx, 20, 60, 150))]:
         add('c17.psf2 ' + f.spec(), 'run_psf2 ' + f.coq())
         if f.h <= 255: add('c17.raw ' + f.spec(), 'run_raw ' + f.coq())
     # codes that are not chars: 0xD800 is reached with every glyph below it present (every tier); a table with glyphs on
@@ -541,7 +561,7 @@ def correspondence(ctx):
     blt = builtin_files(ctx)
     for kind, key, file, data in (blt if (ctx.thorough or ctx.escalated) else blt[:3] + blt[31:34] + blt[-3:]):
         add('c17.fb ' + hexs(data), 'run_fb ' + clist(data))
-    for b in files[:budget(ctx, 40, 120, 400)] + REGRESSION_FILES + gen_malformed_font_files(rng, budget(ctx, 250, 1500, 4000)):
+    for b in files[:budget(ctx, 40, 120, 400)] + REGRESSION_FILES + DEGENERATE_FILES + BOUNDARY_FILES + gen_malformed_font_files(rng, budget(ctx, 250, 1500, 4000)):
         add('c17.fb ' + hexs(b), 'run_fb ' + clist(b))
     for b in (BIG_FILES if (ctx.thorough or ctx.escalated) else BIG_FILES[:1]):
         add('c17.fb ' + hexs(b), 'run_fb ' + clist(b))
@@ -707,7 +727,7 @@ def search(ctx, broken):
         elif r[1] != fonts[i].obs(): fail('raw-roundtrip-mismatch', c, r[1], fonts[i].obs(), 'create_8/from_basic(convert_to_u8_data(font)) changed the font (%s)' % labels[i])
     # round trip 2b: glyphs missing from the table (regression: the writers used to unwrap / build unchecked chars).
     # The file must be the reference PSF2 file of the padded font and must load as the padded font.
-    partial = PARTIAL_REGRESSION + [surrogate_font(0xD800, 0xD7FE)] + [gen_partial_font(rng) for _ in range(budget(ctx, 40, 300, 600))]
+    partial = PARTIAL_REGRESSION + DIM_REGRESSION + [surrogate_font(0xD800, 0xD7FE)] + [gen_partial_font(rng) for _ in range(budget(ctx, 40, 300, 600))]
     for fc in first_cases:
         a = fc.split()
         if a[0] in ('c17.psf2', 'c17.raw'):
@@ -727,6 +747,12 @@ def search(ctx, broken):
     r2 = ctx.impl(c2, per_case_timeout=20); ncases += len(c2)
     for i, c, r in zip(idx2, c2, r2):
         want = pad_font(partial[i]).obs()
+        if not dims_ok(partial[i].w, partial[i].h):
+            # fix fB: the writer writes any size; the loader must refuse a glyph size outside 1..=8 x 1..=32
+            if r != ('err', 'UnsupportedSize'):
+                fail('from_bytes-degenerate-size' if r[0] in ('ok', 'err') else 'from_bytes-%s' % r[0], c1[i], r[1][:8] if r[0] == 'ok' else r, ['err', 'UnsupportedSize'],
+                     'the PSF2 file of a %d x %d font must be refused with UnsupportedSize' % (partial[i].w, partial[i].h))
+            continue
         if r[0] != 'ok': fail('psf2-roundtrip-%s' % r[0], c1[i], r, want[:8], 'from_bytes(to_psf2_bytes(font with missing glyphs)) failed')
         elif r[1] != want: fail('psf2-roundtrip-mismatch', c1[i], r[1], want, 'PSF2 round trip of a font with missing glyphs is not the padded font')
     p256 = [f for f in partial if f.length == 256 and f.h <= 255]
@@ -786,7 +812,7 @@ def search(ctx, broken):
         if r[0] != 'ok': fail('embed-%s-%s' % (ext, r[0]), c, r, None, 'saving/loading a buffer with this font in slot 0 failed')
         elif r[1] != f.obs(): fail('embed-%s-roundtrip-mismatch' % ext, c, r[1], f.obs(), 'font slot of the reloaded %s file differs' % ext)
     # ---- 2. no panic / termination of the bitmap font loader
-    mal = REGRESSION_FILES + BIG_FILES + gen_malformed_font_files(rng, budget(ctx, 600, 5000, 8000))
+    mal = REGRESSION_FILES + DEGENERATE_FILES + BOUNDARY_FILES + BIG_FILES + gen_malformed_font_files(rng, budget(ctx, 600, 5000, 8000))
     for fc in first_cases:
         if fc.startswith('c17.fb '): mal.insert(0, unhex(fc.split()[1]))
     c1 = ['c17.fb ' + hexs(b) for b in mal]
@@ -798,6 +824,16 @@ def search(ctx, broken):
         elif r[0] == 'ok':
             f = font_of_obs(r[1])
             if f is None: fail('from_bytes-glyph-codes', c[:400], r[1][:20], None, 'glyph codes are not 0..n')
+            # fix fB (Props.C17.loaded_font_dims): no loaded font has a glyph size outside 1..=8 x 1..=32, and every glyph has `height` rows
+            elif not dims_ok(f.w, f.h):
+                fail('from_bytes-degenerate-size', c if len(c) < 400 else c[:400] + '…(%d bytes)' % len(b), r[1][:4], None,
+                     'BitFont::from_bytes returned a font with glyph size %d x %d (outside 1..=8 x 1..=32)' % (f.w, f.h))
+            elif any(len(g) != f.h for g in f.glyphs):
+                fail('from_bytes-glyph-rows', c[:400], r[1][:20], None, 'a glyph of the loaded font does not have `height` rows')
+    for b, r in zip(mal, r1):
+        if (b in DEGENERATE_FILES and r[0] == 'ok') or (b in BOUNDARY_FILES and r[0] == 'err'):
+            fail('from_bytes-degenerate-size' if r[0] == 'ok' else 'from_bytes-boundary-size-refused', 'c17.fb ' + hexs(b[:64]), r[1][:4] if r[0] == 'ok' else r, None,
+                 'a font file with a glyph size outside 1..=8 x 1..=32 (or charsize != height) must be refused, one at the boundary must load')
     dcs_short = [b'\x1bPCTerm:Font:0:\x1b\\', b'\x1bPCTerm:Font:1:AA==\x1b\\', b'\x1bPCTerm:Font:1:NgQ=\x1b\\', b'\x1bPCTerm:Font:1:NgQAAAE=\x1b\\']
     c1 = ['c17.dcs 1 ' + hexs(b) for b in dcs_short]
     r1 = ctx.impl(c1); ncases += len(c1)
@@ -972,12 +1008,12 @@ def replay(ctx, body):
     return 0 if verdict else 1
 
 LEVEL_TEXT = ('Machine-checked proof (Coq, closed under the global context) over models of the font code: for every font of width 8, height 1..32, 256 or 512 glyphs and arbitrary row bytes '
-              'from_bytes(to_psf2_bytes f) = f (also for every width/height < 2^31 and up to 0xD800 glyphs; a font with any number of its glyphs missing is written with empty glyphs in their place and reads back as exactly that padded font, through PSF2 and through the raw 8 bit data); create_8/from_basic(convert_to_u8_data f) = f; the XBin, ADF/IDF and IcyDraw font slots '
+              'from_bytes(to_psf2_bytes f) = f (also for every width 1..8, height 1..32 - every glyph size the loaders accept since fix fB - and up to 0xD800 glyphs; a font with any number of its glyphs missing is written with empty glyphs in their place and reads back as exactly that padded font, through PSF2 and through the raw 8 bit data); create_8/from_basic(convert_to_u8_data f) = f; the XBin, ADF/IDF and IcyDraw font slots '
               'read back the font written; the CTerm:Font DCS string loads f into the slot it names for every slot < 2^64, given the base64 inverse law and that the raw data does not begin with a PSF magic '
               '(that exclusion is format-inherent: known finding C17-dcs-magic-collision, with a proved witness); every well-formed TheDraw font / bundle (names <= 12 bytes of NUL-free UTF-8, spaces 0..40, 94 slots, '
               'glyph sizes < 256, NUL-free data, colour data in (char, attribute) pairs, <= 65535 bytes of glyph data per font, any number >= 1 of fonts) reads back identically; and BitFont::from_bytes, the DCS font loader, '
-              'and from_tdf_bytes return Ok or Err (no panic, abort or unbounded loop) for every byte string, and the two writers to_psf2_bytes / convert_to_u8_data return for every font whose height is not negative. The theorems are about the merged tree: C17\'s fix: commits (short inputs, zero height, '
-              'ragged tail, PSF2 header arithmetic, > 0xD800 glyphs, TDF 16 bit overflow, truncated TDF) plus C10\'s c9c7437 (checked glyph-index to char conversion, empty glyph instead of unwrap). The models are hand-written and tied to the Rust code by differential execution on every run; constants come from the source.')
+              'and from_tdf_bytes return Ok or Err (no panic, abort or unbounded loop) for every byte string; every font from_bytes returns (PSF1, PSF2, raw data, the payload of a CTerm:Font DCS string) has a glyph size of 1..8 x 1..32 (loaded_font_dims, dcs_font_dims: no loaded font has a zero, huge or negative dimension - finding C02-sixel-font0, fixed); and the two writers to_psf2_bytes / convert_to_u8_data return for every font whose height is not negative. The theorems are about the merged tree: C17\'s fix: commits (short inputs, zero height, '
+              'ragged tail, PSF2 header arithmetic, > 0xD800 glyphs, TDF 16 bit overflow, truncated TDF) plus C10\'s c9c7437 (checked glyph-index to char conversion, empty glyph instead of unwrap) plus fix fB (glyph size check of load_psf2 / load_psf1 / load_plain_font; the old loader is refuted: psf2_dims_before_fix_refuted). The models are hand-written and tied to the Rust code by differential execution on every run; constants come from the source.')
 LEVEL_NOTE = ('Trusted: Coq kernel + vm_compute; hand models tied by stage C only (no translator for the function bodies; token hashes of the modelled functions raise the budgets when they drift); base64 and from_utf8_lossy enter as '
               'hypotheses in the statements; the DCS string collection of the ANSI parser and the file containers around the font slots are exercised on the real code but not proved.')
 TECHNIQUE = 'Coq proof (list induction over glyph tables, offset arithmetic of the TDF block, fuel adequacy for the loaders) + differential correspondence + round-trip / no-panic search on the real code'
